@@ -70,7 +70,7 @@ let bound_of kt (s : string) : key bound =
 
 let cmp = key_cmp
 
-let () =
+let spec_main () =
   let committed = ref [] and w = ref [] and kt = ref KtBytes in
   let dump tag =
     Printf.printf "%s %d %s\n" tag (int_of_n (len !committed)) (plist (List.map pe !committed)) in
@@ -194,3 +194,160 @@ let () =
        | _ -> print_endline "BADLINE")
     done
   with End_of_file -> ())
+
+(* ================================================================================================
+   shape mode (S2):  c18_driver shape [marker file]  < shapein.<cfg>.txt  > shapemodel.<cfg>.txt
+   For every mutable cursor session the harness recorded the REAL tree before it (P line, Table::verif_shape)
+   and the session (W line).  The EXTRACTED splice model (coq/Btree/ShapeCursor.v: s_session = the gap logic of
+   Cursor.v driving splice_insert_run / pop_leaf_entry on the shape model) is started from that tree and its
+   resulting tree is printed in the harness's canonical format; the check compares it with the real tree
+   after the session, node by node (dirty flags and allocated lengths included).
+   Glue only: parsing (values are rebuilt as zero bytes of the recorded length: the model reads sizes only),
+   the printer, and run-time cross checks that print a marker line (which the real output never contains):
+     INV!    the executable invariant checker rejects the model's tree
+     ERASE!  erasing the decorations of the result differs from CursorSplice.t_session on the erased tree
+     SPEC!   the contents of the result differ from the specification cursor's map after the same script *)
+let zero_cache : (int, n list) Hashtbl.t = Hashtbl.create 64
+let zeros l = try Hashtbl.find zero_cache l with Not_found -> let z = List.init l (fun _ -> N0) in Hashtbl.add zero_cache l z; z
+
+let shape_main () =
+  let kt = ref KtBytes and fk = ref false and fv = ref false and ps = ref (n_of_int 512) and sep = ref key_sep_bytes in
+  let pre : (key, n list) sbtree ref = ref sempty in
+  let markers : (string, int) Hashtbl.t = Hashtbl.create 64 in
+  let mark name = Hashtbl.replace markers name (1 + (try Hashtbl.find markers name with Not_found -> 0)) in
+  let hexs (l : n list) = String.concat "" (List.map (fun b -> Printf.sprintf "%02x" (int_of_n b)) l) in
+  (* ---- parser of a shape line *)
+  let parse_shape (toks : string array) : (key, n list) sbtree =
+    (* toks.(1) = length, toks.(2..) = nodes *)
+    let len = n_of_dec toks.(1) in
+    if Array.length toks < 3 || toks.(2) = "-" then { sb_root = None; sb_len = len }
+    else begin
+      let prev = ref [] in
+      let dec_key (t : string) : key =
+        let i = String.index t '.' in
+        let shared = int_of_string (String.sub t 0 i) in
+        let rest = bytes_of_hex (let h = String.sub t (i + 1) (String.length t - i - 1) in if h = "" then "-" else h) in
+        let rec take n l = if n = 0 then [] else (match l with x :: r -> x :: take (n - 1) r | [] -> failwith "shared") in
+        let b = take shared !prev @ rest in
+        prev := b;
+        (match !kt with KtU64 -> key_of_u64_bytes b | KtBytes -> KBytes b) in
+      let idx = ref 2 in
+      let rec node () : (key, n list) snode =
+        let t = toks.(!idx) in incr idx;
+        let colon = String.index t ':' in
+        let hd = String.sub t 0 colon and items = String.sub t (colon + 1) (String.length t - colon - 1) in
+        let leaf = hd.[0] = 'L' in
+        let j = ref 1 in
+        while hd.[!j] >= '0' && hd.[!j] <= '9' do incr j done;
+        let dirty = hd.[!j] = 'd' in
+        let slash = String.index hd '/' in
+        let alloc = int_of_string (String.sub hd (!j + 1) (slash - !j - 1)) in
+        let its = if items = "" then [] else String.split_on_char ',' items in
+        if leaf then
+          SLeaf (dirty, n_of_int alloc,
+                 List.map (fun it -> let e = String.index it '=' in
+                            let k = dec_key (String.sub it 0 e) in
+                            let vl = int_of_string (String.sub it (e + 1) (String.length it - e - 1)) in
+                            (k, zeros vl)) its)
+        else begin
+          let ks = List.map dec_key its in
+          let c0 = node () in
+          let rest = List.map (fun k -> let c = node () in (k, c)) ks in
+          SBranch (dirty, c0, rest) end in
+      let root = node () in
+      { sb_root = Some root; sb_len = len } end in
+  (* ---- printer (harness/src/bin/c18.rs: shape_text) *)
+  let shape_text (st : (key, n list) sbtree) : string =
+    let buf = Buffer.create 4096 in
+    Buffer.add_string buf (Printf.sprintf "S %d" (int_of_n st.sb_len));
+    let prev = ref [] in
+    let pkey (k : key) =
+      let b = key_bytes k in
+      let rec common a c acc = match a, c with x :: a', y :: c' when x = y -> common a' c' (acc + 1) | _ -> acc in
+      let shared = common !prev b 0 in
+      let rec drop n l = if n = 0 then l else (match l with _ :: r -> drop (n - 1) r | [] -> []) in
+      prev := b;
+      let rest = drop shared b in
+      string_of_int shared ^ "." ^ (if rest = [] then "-" else hexs rest) in
+    let rec go depth (t : (key, n list) snode) =
+      match t with
+      | SLeaf (d, a, es) ->
+        let used = leaf_required !fk !fv (n_of_int (List.length es)) (leaf_bytes key_size val_size es) in
+        Buffer.add_string buf (Printf.sprintf " L%d%c%d/%d:" depth (if d then 'd' else 'c') (int_of_n a) (int_of_n used));
+        Buffer.add_string buf (String.concat "," (List.map (fun (k, v) -> let s = pkey k in s ^ "=" ^ string_of_int (List.length v)) es))
+      | SBranch (d, c0, rest) ->
+        let used = branch_required !fk (n_of_int (List.length rest)) (keys_size key_size (List.map fst rest)) in
+        Buffer.add_string buf (Printf.sprintf " B%d%c%d/%d:" depth (if d then 'd' else 'c') (int_of_n (alloc_for !ps used)) (int_of_n used));
+        Buffer.add_string buf (String.concat "," (List.map (fun (s, _) -> pkey s) rest));
+        go (depth + 1) c0; List.iter (fun (_, c) -> go (depth + 1) c) rest in
+    (match st.sb_root with None -> Buffer.add_string buf " -" | Some t -> go 0 t);
+    Buffer.contents buf in
+  let rec height (t : (key, n list) snode) = match t with SLeaf _ -> 1 | SBranch (_, c0, _) -> 1 + height c0 in
+  let rec count_dirty (t : (key, n list) snode) = match t with
+    | SLeaf (d, _, _) -> if d then 1 else 0
+    | SBranch (d, c0, rest) -> (if d then 1 else 0) + count_dirty c0 + List.fold_left (fun a (_, c) -> a + count_dirty c) 0 rest in
+  (try
+    while true do
+      let line = input_line stdin in
+      let toks = Array.of_list (String.split_on_char ' ' line) in
+      (match toks.(0) with
+       | "C" ->
+         kt := (match toks.(2) with "u64" -> KtU64 | _ -> KtBytes);
+         fk := (toks.(2) = "u64"); fv := (toks.(3) = "u64");
+         sep := (match toks.(2) with "u64" -> key_sep_left | "str" -> key_sep_str | _ -> key_sep_bytes);
+         ps := n_of_int (int_of_string toks.(4));
+         pre := sempty;
+         Printf.printf "C %s\n" toks.(1)
+       | "P" -> pre := parse_shape toks
+       | "W" ->
+         let b = bound_of !kt toks.(2) in
+         let lower = toks.(1) = "l" in
+         let ops = ref [] in
+         for i = 3 to Array.length toks - 1 do
+           let t = toks.(i) in
+           (match t with
+            | "pn" -> ops := CPeekNext :: !ops | "pp" -> ops := CPeekPrev :: !ops
+            | "n" -> ops := CNext :: !ops | "p" -> ops := CPrev :: !ops
+            | "rn" -> ops := CRemoveNext :: !ops | "rp" -> ops := CRemovePrev :: !ops
+            | _ ->
+              (match String.split_on_char ':' t with
+               | ["ib"; k; v] -> ops := CInsertBefore (key_of !kt k, bytes_of_hex_z v) :: !ops
+               | ["ia"; k; v] -> ops := CInsertAfter (key_of !kt k, bytes_of_hex_z v) :: !ops
+               | _ -> ()))
+         done;
+         let ops = List.rev !ops in
+         let (outs, post) = s_session key_cmp key_size val_size !fk !fv !ps !sep iNSERT_FLUSH_BYTES !pre lower b ops in
+         print_endline (shape_text post);
+         (* cross checks *)
+         if not (m_tree_checkb (erase_tree post)) then print_endline "INV!";
+         let (louts, lpost) = t_session key_cmp key_size val_size !fk !fv !ps !sep iNSERT_FLUSH_BYTES (erase_tree !pre) lower b ops in
+         if compare lpost (erase_tree post) <> 0 || compare louts outs <> 0 then print_endline "ERASE! session (CursorSplice.t_session on the erased tree gives another tree)";
+         let m0 = abs_tree (erase_tree !pre) in
+         let c0 = if lower then seek_lower key_cmp m0 b else seek_upper key_cmp m0 b in
+         let (souts, c1) = List.fold_left (fun (acc, c) o -> let (x, c') = cursor_step key_cmp c o in (x :: acc, c')) ([], c0) ops in
+         if compare (cursor_map c1) (abs_tree (erase_tree post)) <> 0 then print_endline "SPEC! session contents";
+         if compare (List.rev souts) outs <> 0 then print_endline "SPEC! session outputs";
+         (* evidence markers *)
+         let h0 = (match !pre.sb_root with None -> 0 | Some t -> height t) and h1 = (match post.sb_root with None -> 0 | Some t -> height t) in
+         let acc = List.length (List.filter (fun x -> x = CAccepted true) outs) in
+         mark "sessions";
+         if acc > 0 then mark "sessions-with-a-splice";
+         if acc > 0 then mark (Printf.sprintf "splice:height-before=%d" h0);
+         if h1 > h0 && h0 > 0 then mark "splice:root-growth";
+         if h0 = 0 && acc > 0 then mark "splice:into-empty-tree";
+         if acc >= 20 then mark "sessions-with>=20-accepted-inserts";
+         (match !pre.sb_root, post.sb_root with
+          | Some a, Some b when acc > 0 && count_dirty a = 0 -> mark "splice:on-committed-tree"
+          | Some a, Some b when acc > 0 -> mark "splice:on-tree-with-uncommitted-pages"
+          | _ -> ())
+       | "" -> ()
+       | _ -> print_endline "BADLINE")
+    done
+  with End_of_file -> ());
+  let oc = open_out (if Array.length Sys.argv > 2 then Sys.argv.(2) else "shape_markers.txt") in
+  List.iter (fun (k, v) -> Printf.fprintf oc "%s=%d\n" k v)
+    (List.sort compare (Hashtbl.fold (fun k v acc -> (k, v) :: acc) markers []));
+  close_out oc
+
+let () =
+  if Array.length Sys.argv > 1 && Sys.argv.(1) = "shape" then shape_main () else spec_main ()
